@@ -192,6 +192,29 @@ def split_sim_traces(edges):
     return traces
 
 
+def def_coverage(tlc_out, tla_path, module, names):
+    """how often each named definition produced a step, from TLC's per-expression coverage"""
+    src = open(tla_path).read().split("\n")
+    ranges = {}
+    for n in names:
+        for i, l in enumerate(src):
+            if re.match(r"%s(\(.*\))? ==" % re.escape(n), l):
+                j = i + 1
+                while j < len(src) and src[j].strip() != "" and not re.match(r"^[A-Za-z_]\w*(\(.*\))? ==", src[j]):
+                    j += 1
+                ranges[n] = (i + 1, j)
+                break
+    # the LAST conjunct of a definition (its UNCHANGED / Step line) is evaluated only when every guard before it held:
+    # its count is the number of times the definition produced a step
+    last = {n: (0, 0) for n in names}          # name -> (line, count)
+    for m in re.finditer(r"(?m)^\s+\|*line (\d+), col \d+ to line (\d+), col \d+ of module %s: (\d+)" % module, tlc_out):
+        a, c = int(m.group(1)), int(m.group(3))
+        for n, (lo, hi) in ranges.items():
+            if lo <= a <= hi and (a > last[n][0] or (a == last[n][0] and c > last[n][1])):
+                last[n] = (a, c)
+    return {n: last[n][1] for n in names}
+
+
 def build_abba(r):
     steps = trace_steps(r)
     c = cfg_consts("peers/PoolFineOrigLock.cfg")
@@ -352,8 +375,16 @@ def run(ctx):
     R = parallel(ctx, jobs)
     if R["fine"].ok and R["mgr"].ok:
         ctx.cover(exhaustive=True)
-    if not quick and R["fine"].coverage:
-        ctx.require_coverage(R["fine"], ["LockPool", "LockQueue", "CooldownPush", "CooldownBody", "ReleaseScan", "CallbackBody", "Tick", "TryGetBody"])
+    if not quick:
+        # vacuity guard (vlib.require_coverage works per top-level action; Next is ONE action here, so the
+        # per-expression coverage of the definitions is used instead)
+        need = ["LockPool", "LockQueue", "AddBody", "RemoveBody", "TryGetBody", "CooldownCheck", "CooldownPush",
+                "CooldownBody", "ReleaseScan", "CallbackBody", "Tick"]
+        hits = def_coverage(R["fine"].stdout, os.path.join(vlib.VERIF, "spec", "peers", "PeerPool.tla"), "PeerPool", need)
+        missing = [n for n in need if hits.get(n, 0) == 0]
+        ctx.cover(action_coverage=hits)
+        if missing:
+            ctx.inconclusive("vacuity: definitions never evaluated to a step in the fine-grained run: %s" % missing)
 
     if R["origlock"]:
         plan["fine"] = [R["origlock"]]
